@@ -277,17 +277,22 @@ the shared names in *self* order are paired positionally with the shared names i
 def Table.naturalKeys (t u : Table) : List String × List String :=
   (t.header.filter (u.header.contains ·), u.header.filter (t.header.contains ·))
 
-def Table.crossJoin (t u : Table) (pre : String := "right_") : Table :=
-  { header := t.header ++ u.header.map (pre ++ ·), cols := crossJoinCols dfl t.cols u.cols }
+def Table.crossJoin (t u : Table) (pre : String := "right_") : Except String Table :=
+  -- `self_selected, other_selected = list(zip(*product(...)))` cannot be unpacked when the product is empty
+  if nrows t.cols = 0 ∨ nrows u.cols = 0 then .error "ValueError"
+  else .ok { header := t.header ++ u.header.map (pre ++ ·), cols := crossJoinCols dfl t.cols u.cols }
 
 def Table.getColumns (t : Table) (names : List String) : Except String Table := do
   let sel ← t.idxsOf names
-  pure { header := names, cols := selectCols sel t.cols, title := t.title }
+  -- `Table.__getitem__`: `if len(self.columns[c]) == 0: continue` — a table without rows loses its columns
+  if nrows t.cols = 0 then pure { header := [], cols := [], title := t.title }
+  else pure { header := names, cols := selectCols sel t.cols, title := t.title }
 
 def Table.filtered (t : Table) (p : List Cell → Bool) (names : List String) : Except String Table := do
-  let sel ← t.idxsOf names
-  if nrows t.cols = 0 then pure t
-  else pure { t with cols := filteredCols dfl p sel t.cols }
+  if nrows t.cols = 0 then pure t      -- "no point filtering if no rows": returns self before looking at columns
+  else
+    let sel ← t.idxsOf names
+    pure { t with cols := filteredCols dfl p sel t.cols }
 
 def Table.countUnique (t : Table) (names : List String) : Except String (List (List Key × Nat)) := do
   let sel ← t.idxsOf names
@@ -351,30 +356,43 @@ def sortColumns (header : List String) (columns : Option (List String)) (reverse
     columns ++ reverse.filter (fun c => !columns.contains c)
   else columns
 
-/-- transformed key field of a cell of column kind `k`, reversed or not -/
+/-- the reversal transform applied to one cell of a reversed key column of kind `k`
+(`_reverse_num` for int/float dtypes, else `_reverse_str`, which needs `.translate`) -/
+def reverseCell (k : ColKind) (c : Cell) : Except String SKey :=
+  match k, c with
+  | .num, .int n => .ok (.num (reverseNum n))
+  | .num, .float q => .ok (.num (reverseNum q))
+  | .num, _ => .error "TypeError"
+  | _, .str s => .ok (.str (reverseStr (s.toList.map Char.toNat)))
+  | _, _ => .error "AttributeError"
+
+/-- transformed key field of a cell -/
 def keyField (k : ColKind) (rev : Bool) (c : Cell) : Except String SKey :=
-  match c.skey with
-  | none => .error "TypeError"
-  | some f =>
-    if !rev then .ok f
-    else match k, f with
-      | .num, .num q => .ok (.num (reverseNum q))
-      | .num, _ => .error "TypeError"
-      | _, .str s => .ok (.str (reverseStr s))
-      | _, _ => .error "AttributeError"     -- `_reverse_str` on a non-str: no `.translate`
+  if rev then reverseCell k c
+  else match c.skey with
+    | some f => .ok f
+    | none => .error "TypeError"
 
 def Table.sorted (t : Table) (columns : Option (List String)) (reverse : List String) : Except String Table := do
   let cols := sortColumns t.header columns reverse
   let sel ← t.idxsOf cols
+  let n := nrows t.cols
+  -- `for c in reverse: index = columns.index(c); data[:, index] = vectorize(func)(data[:, index])`
   for c in reverse do
-    if !cols.contains c then throw "ValueError"     -- `columns.index(c)`
-  let kinds := sel.map fun j => colKind (t.cols.getD j [])
-  let revs := cols.map (reverse.contains ·)
-  let keys ← (rowsOf dfl (selectCols sel t.cols)).mapM fun r =>
-    (r.zip (kinds.zip revs)).mapM fun (c, k, rv) => keyField k rv c
-  -- key columns must be homogeneous (numpy compares like with like; otherwise TypeError)
-  for k in kinds do
-    if k = .obj then throw "TypeError"
-  pure { t with cols := takeRows dfl (sortIdx lexLe keys) t.cols }
+    if !cols.contains c then throw "ValueError"
+    if n = 0 then throw "ValueError"                 -- numpy.vectorize on a size-0 input
+    let col := t.cols.getD ((t.header.idxOf? c).getD 0) []
+    for x in col do
+      let _ ← reverseCell (colKind col) x
+  if n ≤ 1 then pure t                                -- nothing is compared
+  else
+    let kinds := sel.map fun j => colKind (t.cols.getD j [])
+    -- key columns must be homogeneous (like is compared with like; otherwise python raises TypeError)
+    for k in kinds do
+      if k = .obj then throw "TypeError"
+    let revs := cols.map (reverse.contains ·)
+    let keys ← (rowsOf dfl (selectCols sel t.cols)).mapM fun r =>
+      (r.zip (kinds.zip revs)).mapM fun (c, k, rv) => keyField k rv c
+    pure { t with cols := takeRows dfl (sortIdx lexLe keys) t.cols }
 
 end CogentModel.TableOps
